@@ -128,8 +128,9 @@ def shard(payload):
         if "ENERGY_DELAY_PRODUCT" in flags and not any(v["flags"] == flags for v in viol):
             # seeded wrong definition: EDP == dynamic * latency (leak forgotten) must be refuted
             s.push()
-            s.add(tr(sympy.expand(M.canon(cols[T("energy_delay_product")]) - D * Lat)) != 0)
-            if z3_check(s, st, 30000) != "sat":
+            wrong_resid = sympy.expand(M.canon(cols[T("energy_delay_product")]) - D * Lat)
+            s.add(tr(wrong_resid) != 0)
+            if z3_check(s, st, 15000) != "sat" and numeric_witness(wrong_resid)[0] is None:
                 raise HarnessError("seeded wrong EDP definition not refuted")
             st.mutants_refuted += 1
             s.pop()
